@@ -272,3 +272,203 @@ func init() {
 		}
 	})
 }
+
+func init() {
+	registry["C13"].Meta.Rules["C13.13"] = registry["C05"].Meta.Rules["C05.13"] + " - and that offset does not depend on the clipped extents (shared with C05.13)"
+	registry["C13"].Rules = append(registry["C13"].Rules, func(c *Ctx, r *Result) { c05rowPlacement(c, r, "C13.13") })
+}
+
+// ---- per-dimension arithmetic uses one dimension (C13.14 / C06.12) ----
+//
+// In a loop over the dimensions, a product whose one factor is an element s[i] taken with the loop variable and whose other factor
+// is an element t[k] taken with a constant index, of a sequence t that the same function also reads with the loop variable, mixes
+// two dimensions (chunkCoords[i] * chunkSize[0] * stride[i] places every chunk of a later dimension with the first dimension's
+// chunk extent).
+func dimensionIndexRule(c *Ctx, r *Result, rule string, floor int) {
+	n, bad := 0, 0
+	for _, fn := range c.LibFuncs() {
+		pk := shortPkg(fnPkgPath(fn))
+		if fn.Blocks == nil || (pk != "hdf5" && pk != "core" && pk != "writer" && pk != "structures") {
+			continue
+		}
+		// sequences read with a loop variable: base value -> true
+		isLoopVar := func(v ssa.Value) bool {
+			phi, ok := stripConv(v).(*ssa.Phi)
+			if !ok {
+				return false
+			}
+			for _, p := range phi.Block().Preds {
+				if phi.Block().Dominates(p) {
+					return true
+				}
+			}
+			return false
+		}
+		elemOf := func(v ssa.Value) (base ssa.Value, idx ssa.Value, ok bool) {
+			u, isU := stripConv(v).(*ssa.UnOp)
+			if !isU || u.Op != token.MUL {
+				return nil, nil, false
+			}
+			ia, isIA := u.X.(*ssa.IndexAddr)
+			if !isIA {
+				return nil, nil, false
+			}
+			return ia.X, ia.Index, true
+		}
+		byLoop := map[ssa.Value]bool{}
+		instrs(fn, func(in ssa.Instruction) {
+			if ia, ok := in.(*ssa.IndexAddr); ok && isLoopVar(ia.Index) {
+				byLoop[ia.X] = true
+			}
+		})
+		if len(byLoop) == 0 {
+			continue
+		}
+		var factors func(v ssa.Value, out []ssa.Value, d int) []ssa.Value
+		factors = func(v ssa.Value, out []ssa.Value, d int) []ssa.Value {
+			if bo, ok := stripConv(v).(*ssa.BinOp); ok && bo.Op == token.MUL && d < 6 {
+				return factors(bo.Y, factors(bo.X, out, d+1), d+1)
+			}
+			return append(out, v)
+		}
+		instrs(fn, func(in ssa.Instruction) {
+			bo, ok := in.(*ssa.BinOp)
+			if !ok || bo.Op != token.MUL {
+				return
+			}
+			// only the root of a product
+			for _, ref := range *bo.Referrers() {
+				if p, isB := ref.(*ssa.BinOp); isB && p.Op == token.MUL {
+					return
+				}
+			}
+			fs := factors(bo, nil, 0)
+			hasLoop := false
+			var constElem []string
+			for _, f := range fs {
+				base, idx, isElem := elemOf(f)
+				if !isElem {
+					continue
+				}
+				if isLoopVar(idx) {
+					hasLoop = true
+				} else if k, isK := constInt(idx); isK && byLoop[base] {
+					constElem = append(constElem, fmt.Sprintf("%s[%d]", base.Name(), k))
+				}
+			}
+			if !hasLoop {
+				return
+			}
+			n++
+			if len(constElem) > 0 {
+				bad++
+				r.Viol(rule, fmt.Sprintf("%s#product-mixes-dimensions-%d", c.Name(fn), bad), c.InstrPos(bo), "a per-dimension product takes "+strings.Join(constElem, ", ")+" with a constant index while the other factors, and other reads of the same sequence, use the loop variable")
+			}
+		})
+	}
+	if bad == 0 {
+		r.Hold(rule, "module#per-dimension-products-use-one-index", "", fmt.Sprintf("%d products with a factor indexed by a loop variable examined; none takes a constant-indexed element of a sequence that is read per dimension elsewhere", n))
+	}
+	if n < floor {
+		r.Shortfall(c, rule, fmt.Sprintf("%s: only %d per-dimension products found (expected >= %d)", rule, n, floor))
+	}
+}
+
+func init() {
+	txt := "per-dimension arithmetic uses one dimension: in a product that has a factor s[i] taken with a loop variable, no other factor is an element t[k] with a constant index of a sequence t that the same function reads with a loop variable elsewhere (chunkCoords[i] * chunkSize[0] * dataStrides[i] places the chunks of every later dimension with the first dimension's chunk extent)"
+	registry["C13"].Meta.Rules["C13.14"] = txt
+	registry["C13"].Rules = append(registry["C13"].Rules, func(c *Ctx, r *Result) { dimensionIndexRule(c, r, "C13.14", 10) })
+	registry["C06"].Meta.Rules["C06.12"] = txt + " (shared with C13.14)"
+	registry["C06"].Rules = append(registry["C06"].Rules, func(c *Ctx, r *Result) { dimensionIndexRule(c, r, "C06.12", 10) })
+}
+
+// ---- round-up divisions round up (C13.15) ----
+//
+// (a + b - 1) / b is the number of pieces of size b needed for a. Written with another negative constant, (a + b - 2) / b, it is
+// one short whenever a = k*b + 1: the chunk that holds the last element of an appended record is never written.
+func ceilDivRule(c *Ctx, r *Result, rule string, floor int) {
+	n := 0
+	for _, fn := range c.LibFuncs() {
+		if fn.Blocks == nil {
+			continue
+		}
+		var fb *FB
+		k := 0
+		instrs(fn, func(in ssa.Instruction) {
+			bo, ok := in.(*ssa.BinOp)
+			if !ok || bo.Op != token.QUO || !isIntType(bo.Type()) {
+				return
+			}
+			if _, isK := bo.Y.(*ssa.Const); isK {
+				return // rounding to a constant unit is handled by the residue rules
+			}
+			if fb == nil {
+				fb = c.FB(fn)
+			}
+			den := fb.lin(bo.Y)
+			if den.C != 0 || len(den.T) != 1 {
+				return
+			}
+			var sym interface{}
+			for s, coef := range den.T {
+				if coef != 1 {
+					return
+				}
+				sym = s
+			}
+			num := fb.lin(bo.X)
+			if num.T[sym] != 1 || len(num.T) < 2 || num.C >= 0 {
+				return
+			}
+			n++
+			k++
+			r.Check(num.C == -1, rule, fmt.Sprintf("%s#round-up-division-%d", c.Name(fn), k), c.InstrPos(bo), "numerator "+fb.linString(num)+" over "+fb.linString(den)+": a round-up division adds the divisor minus one")
+		})
+	}
+	if n < floor {
+		r.Shortfall(c, rule, fmt.Sprintf("%s: only %d round-up divisions found (expected >= %d)", rule, n, floor))
+	}
+}
+
+func init() {
+	registry["C13"].Meta.Rules["C13.15"] = "round-up divisions round up: wherever a quotient has the form (a + b + c) / b with a negative constant c, c is -1 (the chunk count per dimension computed with -2 is one short for every extent k*chunk + 1: the chunk of an appended single record is never written and reads as zero)"
+	registry["C13"].Rules = append(registry["C13"].Rules, func(c *Ctx, r *Result) { ceilDivRule(c, r, "C13.15", 2) })
+}
+
+func init() {
+	txt := "a deletion takes one record out and leaves the others where they are: no deletion variant of the writable name index stores an element into the record sequence (the swap-with-last idiom); the record is removed by the order-preserving shift that all variants share - a leaf whose records are no longer sorted by name hash differs between rebalancing configurations and is not a valid B-tree node"
+	rule := func(id string) func(c *Ctx, r *Result) {
+		return func(c *Ctx, r *Result) {
+			n := 0
+			for _, fn := range c.LibFuncs() {
+				name := c.Name(fn)
+				if !strings.HasPrefix(name, "structures.WritableBTreeV2.Delete") || fn.Parent() != nil {
+					continue
+				}
+				shrinks, elem := false, ""
+				for _, fs := range c.DirectFieldStores(fn) {
+					if fs.Fn != fn || fs.Key != "structures.WritableBTreeV2.records" {
+						continue
+					}
+					if fs.Kind == "elem" {
+						elem = c.InstrPos(fs.In)
+					} else {
+						shrinks = true
+					}
+				}
+				if !shrinks && elem == "" {
+					continue
+				}
+				n++
+				r.Check(elem == "", id, name+"#remaining-records-keep-their-order", firstNonEmpty(elem, c.Pos(fn.Pos())), "the deletion assigns the record sequence as a whole (shift) and stores no single element into it")
+			}
+			if n < 2 {
+				r.Shortfall(c, id, fmt.Sprintf("%s: only %d deletion variants that change the record sequence", id, n))
+			}
+		}
+	}
+	registry["C19"].Meta.Rules["C19.8"] = txt
+	registry["C19"].Rules = append(registry["C19"].Rules, rule("C19.8"))
+	registry["C14"].Meta.Rules["C14.17"] = txt + " (shared with C19.8)"
+	registry["C14"].Rules = append(registry["C14"].Rules, rule("C14.17"))
+}
